@@ -33,6 +33,30 @@ fn resolve(m: &Module, t: &Trace) -> String {
     }
 }
 
+/// what a trace entry points at: a card, the position of a function's implicit epilogue
+/// (`[]`, or one past the last top-level card), or nothing at all
+fn resolve_kind(m: &Module, t: &Trace) -> &'static str {
+    let mut cur: Module = {
+        let mut mm = m.clone();
+        mm.submodules.push(("std".to_string(), cao_lang::stdlib::standard_library()));
+        mm
+    };
+    for ns in t.namespace.iter() {
+        match cur.submodules.iter().find(|(n, _)| n.as_str() == ns.as_ref()) {
+            Some((_, s)) => cur = s.clone(),
+            None => return "other",
+        }
+    }
+    if cur.get_card(&t.index).is_ok() {
+        return "card";
+    }
+    let idx: Vec<u32> = t.index.card_index.indices.iter().copied().collect();
+    match cur.functions.get(t.index.function) {
+        Some((_, f)) if idx.is_empty() || (idx.len() == 1 && idx[0] as usize == f.cards.len()) => "epilogue",
+        _ => "other",
+    }
+}
+
 /// the card that fails at run time, with the error kind it provokes
 fn failing_card(rng: &mut Rng, tag: i64) -> (Card, &'static str) {
     match rng.below(9) {
@@ -160,6 +184,15 @@ impl Engine for TraceEngine {
     }
 
     fn gen(&self, rng: &mut Rng, _tier: Tier, idx: usize) -> Vec<String> {
+        if idx % 5 == 3 {
+            // resource errors can strike at any instruction: sweep the budget (and use a small
+            // value stack) over a random well-scoped program
+            let size = rng.range(1, 4) as usize;
+            let m = crate::progs::gen_program(rng, &crate::progs::GenOpts { size, with_submodules: idx % 2 == 0 });
+            let upto = if _tier == Tier::Quick { rng.range(20, 80) } else { rng.range(40, 200) };
+            let stack = *rng.pick(&[256usize, 256, 12, 6]);
+            return vec![format!("trc sweep {} upto={upto} stack={stack}", module_tok(&m))];
+        }
         if idx % 5 == 4 {
             let (m, planted) = gen_compile_case(rng);
             vec![format!("trc compile {} expect={}", module_tok(&m), planted)]
@@ -187,6 +220,35 @@ impl Engine for TraceEngine {
                         }
                     },
                 },
+                ["trc", "sweep", m, rest @ ..] => match parse_module(m) {
+                    None => "bad-op".to_string(),
+                    Some(module) => match compile(module.clone(), None) {
+                        Err(e) => format!("compile-error:{}", payload_name(&e.payload)),
+                        Ok(prog) => {
+                            let get = |k: &str, d: usize| rest.iter().find_map(|x| x.strip_prefix(k)).and_then(|v| v.parse().ok()).unwrap_or(d);
+                            let (upto, stack) = (get("upto=", 50), get("stack=", 256));
+                            let (mut errs, mut epi, mut other) = (0, 0, 0);
+                            let mut first = String::new();
+                            for b in 1..=upto {
+                                let mut vm = new_vm(409600, stack, 64);
+                                vm.max_instr = b as u64;
+                                if let Err(e) = vm.run(&prog) {
+                                    errs += 1;
+                                    for (k, t) in e.trace.iter().enumerate() {
+                                        let kind = resolve_kind(&module, t);
+                                        if kind != "card" {
+                                            if kind == "epilogue" { epi += 1 } else { other += 1 }
+                                            if first.is_empty() {
+                                                first = format!(" first=budget:{b},entry:{k},{}:{}", err_kind(&e.payload), crate::engines::compile::show_trace(t));
+                                            }
+                                        }
+                                    }
+                                }
+                            }
+                            format!("sweep errors={errs} unresolved_epilogue={epi} unresolved_other={other}{first}")
+                        }
+                    },
+                },
                 ["trc", "compile", m, ..] => match parse_module(m) {
                     None => "bad-op".to_string(),
                     Some(module) => match compile(module.clone(), None) {
@@ -206,6 +268,11 @@ impl Engine for TraceEngine {
         let mut out = vec![];
         for (op, r) in ops.iter().zip(impl_out.iter()) {
             let expect = op.split(' ').find_map(|x| x.strip_prefix("expect=")).unwrap_or("");
+            if op.starts_with("trc sweep") {
+                // every entry of every error trace resolves to a card
+                out.push(if r.contains(" unresolved_epilogue=0 unresolved_other=0") || r.starts_with("compile-error") { r.clone() } else { "every trace entry resolves to a card (unresolved_epilogue=0 unresolved_other=0)".into() });
+                continue;
+            }
             if op.starts_with("trc compile") {
                 let got = r.split(" card=").nth(1).unwrap_or("");
                 out.push(if r.starts_with("err:") && got == expect { r.clone() } else { format!("expected a compile error located at {expect}") });
